@@ -76,10 +76,15 @@ def check_class(chk, ex, cls, found):
     finally:
         ex.attach_size = None
     rets = [(o, e) for o, e in outs if o.kind == "return"]
-    _wrappers.row(chk, name + ":attach-does-not-raise", len(rets) == len(outs) == 1, None, found)
-    if len(rets) != 1:
+    _wrappers.row(chk, name + ":attach-does-not-raise", len(rets) == len(outs) and rets, None, found)
+    if not rets:
         return
-    o, eff = rets[0]
+    for pi, (o, eff) in enumerate(rets):
+        _attached_path(chk, ex, cls, name if len(rets) == 1 else "%s[path %d]" % (name, pi), o, eff, pref, of, ost, oref, shm, size, found)
+    _attach_helper(chk, ex, cls, name, of, ost, size, found)
+
+
+def _attached_path(chk, ex, cls, name, o, eff, pref, of, ost, oref, shm, size, found):
     af = o.state.objs[pref.oid]["fields"]
     att = [e for e in eff if e[0] == "shm-attach"]
     _wrappers.row(chk, name + ":attach-opens-the-named-block-once", len(att) == 1 and not any(e[0] == "shm-create" for e in eff), None, found)
@@ -117,8 +122,11 @@ def check_class(chk, ex, cls, found):
             dels = [e[2] for e in de if e[0] == "delattr"]
             okv = set(ARRAYS[cls]) <= set(dels) and (not order or order.index("shm.close") >= len(ARRAYS[cls]))
             _wrappers.row(chk, "%s:__del__:%s-drops-its-views-before-close" % (name, who), okv, order, found)
+
+
+def _attach_helper(chk, ex, cls, name, of, ost, size, found):
     # helpers.attach_shared_memory rebuilds the sketch from the owner's args and attaches it
-    if cls != "CountMinLinear" or True:
+    if True:
         kind = {"HyperLogLog": "hll", "HeavyHitters": "hh"}.get(cls, "cms")
         fn = ex.func("helpers", "attach_shared_memory")
         st2 = ost.fork()
